@@ -6,6 +6,7 @@ import Driver.SqlTx
 import Driver.SqlMv
 import Driver.C13Cache
 import Driver.C12Ddl
+import Driver.C12Conv
 import Driver.C14
 import Driver.C07
 import Driver.C02
@@ -68,6 +69,7 @@ def step (st : State) (line : String) : State × String :=
   | "c07" :: rest => let (s, o) := C07.step st.c07 rest; ({ st with c07 := s }, o)
   | "c14" :: rest => let (s, o) := C14.step st.c14 rest; ({ st with c14 := s }, o)
   | "c11" :: rest => let (s, o) := C11.step st.c11 rest; ({ st with c11 := s }, o)
+  | "c12" :: "conv" :: rest => (st, C12Conv.step rest)
   | "c12" :: "ddl" :: rest => let (s, o) := C12Ddl.step st.c12ddl rest; ({ st with c12ddl := s }, o)
   | "c12" :: "mv" :: rest => let (s, o) := SqlMv.step st.c12mv rest; ({ st with c12mv := s }, o)
   | "c12" :: rest => let (s, o) := SqlTx.step' true st.c12 rest; ({ st with c12 := s }, o)
